@@ -75,6 +75,14 @@ def _entropy_classes(data):
         cls.append("invalid:mult4" if n % 4 == 0 else "invalid:non-mult4")
         return cls
     cls = [f"len:{n}"]
+    plen = len(ref.to_mnemonic(data))
+    nw = (8 * n + n // 4) // 11
+    if plen >= nw * 8 + nw - 1 - 10:
+        cls.append("nt:phrase-near-maximal-length")  # e.g. 24 words, more than 200 characters
+        if n == 32 and plen > 192:
+            cls.append("nt:phrase-24-words-over-192-chars")
+    elif plen <= nw * 3 + nw - 1 + 10:
+        cls.append("nt:phrase-near-minimal-length")
     v = int.from_bytes(data, "big")
     nbits = 8 * n
     pop = bin(v).count("1")
@@ -168,9 +176,21 @@ def entropies(draw, n=None):
     kind = draw(
         st.sampled_from(
             ["random", "random", "random", "random", "random", "random", "zeros", "ones", "bit-set", "bit-clear", "rep-byte", "lead-zeros",
-             "trail-zeros", "extreme-word", "sparse"]
+             "trail-zeros", "extreme-word", "sparse", "word-length"]
         )
     )
+    if kind == "word-length":
+        # every word wholly inside the entropy bits is one of the longest (8 letters) or of the shortest (3 letters)
+        # words: the phrase is as long / as short as a phrase of that many words gets (215 characters for 24 words)
+        want = draw(st.sampled_from([8, 8, 3]))
+        pool = [i for i, w in enumerate(W) if len(w) == want]
+        nwords = (nbits + nbits // 32) // 11
+        v = draw(st.integers(0, 2**11 - 1))
+        for _ in range(nwords - 1):
+            v = (v << 11) | pool[draw(st.integers(0, len(pool) - 1))]
+        used = 11 * (nwords - 1)
+        v = (v & ((1 << used) - 1)) << (nbits - used) | draw(st.integers(0, (1 << (nbits - used)) - 1))
+        return (v & ones).to_bytes(n, "big")
     if kind == "zeros":
         return bytes(n)
     if kind == "ones":
@@ -712,8 +732,8 @@ def targets(tier):
             check_entropy,
             strategy=lambda tier: entropy_cases(),
             budget={"quick": 4000, "thorough": 80000},
-            required=["random", "nt:zeros", "nt:ones", "nt:single-bit-set", "nt:leading-zero-byte", "nt:extreme-word",
-                      "nt:invalid-length", "len:16", "len:20", "len:24", "len:28", "len:32"],
+            required=["random", "nt:zeros", "nt:ones", "nt:single-bit-set", "nt:leading-zero-byte", "nt:extreme-word", "nt:phrase-near-maximal-length", "nt:phrase-24-words-over-192-chars",
+                      "nt:phrase-near-minimal-length", "nt:invalid-length", "len:16", "len:20", "len:24", "len:28", "len:32"],
         ),
         Target(
             "accept-set",
